@@ -5,6 +5,11 @@
 //!   reprq  <ps|pd|fs|fd> <hex text> <printable>   with_preferred_quote / with_forced_quote
 //!   reprb  <hex bytes>                            AsciiEscape::new_repr
 //!   reprbq <ps|pd|fs|fd> <hex bytes>
+//!   named  <hex bytes> <name length>              AsciiEscape::new(b, AsciiEscape::named_repr_layout(b, name))
+//!                                                 (name lengths up to isize::MAX - 5: see `fake_name`)
+//! Every repr answer also carries `fmt=`: the same text through the `Display` impl (`fmt` -> `write`
+//! on a `Formatter`), `same` when equal; `reprb` has `new=` (the text through `AsciiEscape::new`
+//! with the layout of `AsciiEscape::repr_layout`).
 //!   cls <hex text>            -> the non-ASCII code points of the text that the real
 //!                                `char::is_printable` calls printable (decimal, comma separated)
 //!   printable <lo> <hi>       -> maximal ranges of printable scalar values in [lo, hi]
@@ -85,6 +90,45 @@ fn written(f: impl FnOnce(&mut String) -> std::fmt::Result) -> String {
     out
 }
 
+/// `same`, or the hex of the differing text
+fn same_or_hex(got: &str, want: &str) -> String {
+    if got == want {
+        "same".to_string()
+    } else {
+        hex(got.as_bytes())
+    }
+}
+
+/// A `&str` of the given length for `named_repr_layout`, which only reads `name.len()`.
+/// Short names are real; long ones (no allocation of that size exists) are a length over a
+/// dangling pointer that is never dereferenced.
+fn fake_name(n: usize) -> &'static str {
+    if n <= 4096 {
+        Box::leak("x".repeat(n).into_boxed_str())
+    } else {
+        unsafe {
+            std::str::from_utf8_unchecked(std::slice::from_raw_parts(
+                std::ptr::NonNull::<u8>::dangling().as_ptr(),
+                n,
+            ))
+        }
+    }
+}
+
+fn named(b: &[u8], name_len: usize) -> String {
+    let name = fake_name(name_len);
+    let esc = AsciiEscape::new(b, AsciiEscape::named_repr_layout(b, name));
+    let repr = written(|o| esc.bytes_repr().write(o));
+    let fmt = format!("{}", esc.bytes_repr());
+    format!(
+        "{} repr={} rt={} fmt={}",
+        show_layout(esc.layout(), esc.changed()),
+        hex(repr.as_bytes()),
+        round_trip(&repr, &Constant::Bytes(b.to_vec())),
+        same_or_hex(&fmt, &repr)
+    )
+}
+
 fn reprs(s: &str, pl: &str) -> String {
     let esc = UnicodeEscape::new_repr(s);
     let repr = written(|o| esc.str_repr().write(o));
@@ -109,14 +153,16 @@ fn reprs(s: &str, pl: &str) -> String {
             }
         }
     };
+    let fmt = format!("{}", esc.str_repr());
     format!(
-        "{} repr={} tostr={} rt={} disp={} cls={}",
+        "{} repr={} tostr={} rt={} disp={} cls={} fmt={}",
         show_layout(esc.layout(), esc.changed()),
         hex(repr.as_bytes()),
         tostr,
         round_trip(&repr, &c),
         disp,
-        cls_ok(s, pl)
+        cls_ok(s, pl),
+        same_or_hex(&fmt, &repr)
     )
 }
 
@@ -129,12 +175,14 @@ fn reprq(mode: &str, s: &str, pl: &str) -> String {
         _ => return "bad-request".into(),
     };
     let repr = written(|o| esc.str_repr().write(o));
+    let fmt = format!("{}", esc.str_repr());
     format!(
-        "{} repr={} rt={} cls={}",
+        "{} repr={} rt={} cls={} fmt={}",
         show_layout(esc.layout(), esc.changed()),
         hex(repr.as_bytes()),
         round_trip(&repr, &Constant::Str(s.to_string())),
-        cls_ok(s, pl)
+        cls_ok(s, pl),
+        same_or_hex(&fmt, &repr)
     )
 }
 
@@ -162,13 +210,18 @@ fn reprb(b: &[u8]) -> String {
             }
         }
     };
+    let fmt = format!("{}", esc.bytes_repr());
+    let via_new = AsciiEscape::new(b, AsciiEscape::repr_layout(b, Quote::Single));
+    let new = written(|o| via_new.bytes_repr().write(o));
     format!(
-        "{} repr={} tostr={} rt={} disp={}",
+        "{} repr={} tostr={} rt={} disp={} fmt={} new={}",
         show_layout(esc.layout(), esc.changed()),
         hex(repr.as_bytes()),
         tostr,
         round_trip(&repr, &c),
-        disp
+        disp,
+        same_or_hex(&fmt, &repr),
+        same_or_hex(&new, &repr)
     )
 }
 
@@ -181,11 +234,13 @@ fn reprbq(mode: &str, b: &[u8]) -> String {
         _ => return "bad-request".into(),
     };
     let repr = written(|o| esc.bytes_repr().write(o));
+    let fmt = format!("{}", esc.bytes_repr());
     format!(
-        "{} repr={} rt={}",
+        "{} repr={} rt={} fmt={}",
         show_layout(esc.layout(), esc.changed()),
         hex(repr.as_bytes()),
-        round_trip(&repr, &Constant::Bytes(b.to_vec()))
+        round_trip(&repr, &Constant::Bytes(b.to_vec())),
+        same_or_hex(&fmt, &repr)
     )
 }
 
@@ -235,6 +290,11 @@ fn handle(ws: &[&str]) -> String {
         ["reprbq", mode, t] => match unhex(t) {
             Some(b) => reprbq(mode, &b),
             None => bad(),
+        },
+        ["named", t, n] => match (unhex(t), n.parse::<usize>()) {
+            // below isize::MAX - 5 the `as isize` casts of the length checker are the identity
+            (Some(b), Ok(n)) if n <= isize::MAX as usize - 5 => named(&b, n),
+            _ => bad(),
         },
         ["cls", t] => match unhex_str(t) {
             Some(s) => classify(&s),
